@@ -115,6 +115,64 @@ def Explainer.seqMappings (e : Explainer) (mm : List Mapping) (useRanges : Bool)
 def entries (items : List (List Nat)) : List Nat :=
   (items.zipIdx.map fun (x, i) => (if i == 0 then sp else [44, 32]) ++ x).flatten
 
+/-- `fmt.Sprintf("%+d", v)` -/
+def signed (v : Int) : List Nat :=
+  match v with
+  | Int.ofNat n => 43 :: decimal n
+  | Int.negSucc n => 45 :: decimal (n + 1)
+
+/-- `writeValueRecord` -/
+def writeValueRecord : Option VR → List Nat
+  | none => [95]
+  | some r =>
+    let parts :=
+      (if r.x != 0 then [[120] ++ signed r.x] else []) ++
+      (if r.y != 0 then [[121] ++ signed r.y] else []) ++
+      (if r.dx != 0 then [[100, 120] ++ signed r.dx] else []) ++
+      (if r.dy != 0 then [[100, 121] ++ signed r.dy] else [])
+    if parts.isEmpty then [95] else (parts.intersperse sp).flatten
+
+/-- `writePairAdjust` -/
+def writePairAdjust (p : PairAdj) : List Nat :=
+  writeValueRecord p.1 ++ (match p.2 with
+    | none => []
+    | some r => [32, 38, 32] ++ writeValueRecord (some r))
+
+/-- `classdef.Table.Glyphs()[1:]`: for the classes 1 … max, their glyphs in ascending order -/
+def classGlyphs (tbl : List (Nat × Nat)) : List (List Nat) :=
+  (List.range ((tbl.map (·.2)).foldl max 0)).map fun c =>
+    sortUnique ((tbl.filter fun p => p.2 == c + 1).map (·.1))
+
+/-- `first`/`second` class lists: `" A B, C"` -/
+def Explainer.classList (e : Explainer) (tbl : List (Nat × Nat)) : List Nat :=
+  ((classGlyphs tbl).zipIdx.map fun (gg, i) =>
+    (if i > 0 then [44] else []) ++ sp ++ e.writeGlyphList gg).flatten
+
+/-- the part of a GPOS subtable after the header or the `||` separator (`i` = index) -/
+def Explainer.gposSubtable (e : Explainer) (i : Nat) : Subtable → List Nat
+  | .gpos1_1 cov adj => sp ++ e.writeGlyphSet cov ++ arrow ++ writeValueRecord adj
+  | .gpos1_2 cov adj =>
+    entries ((cov.zip adj).map fun p => e.writeGlyph p.1 ++ arrow ++ writeValueRecord p.2)
+  | .gpos2_1 pairs =>
+    entries (pairs.map fun p => e.writeGlyphList [p.1.1, p.1.2] ++ arrow ++ writePairAdjust p.2)
+  | .gpos2_2 cov c1 c2 adjust =>
+    (if i == 0 then [10, 9] else []) ++ [47] ++ e.writeGlyphList cov ++ [47] ++ [10, 9] ++
+      [102, 105, 114, 115, 116] ++ e.classList c1 ++ [59, 10, 9] ++
+      [115, 101, 99, 111, 110, 100] ++ e.classList c2 ++ [59] ++
+      (adjust.map fun row =>
+        [10, 9] ++ ((row.map writePairAdjust).intersperse [44, 32]).flatten ++ [59]).flatten
+  | _ => []
+
+def Explainer.gposLookup (e : Explainer) (l : Lookup) : List Nat :=
+  let head := [71, 80, 79, 83] ++ decimal l.typ ++ [58] ++ explainFlags l.flags
+  (l.subtables.zipIdx.map fun (st, i) =>
+      (if i == 0 then head else [32, 124, 124, 10, 9]) ++ e.gposSubtable i st).flatten
+
+/-- `strings.Join(ExplainGpos(font), "\n")` -/
+def explainGpos (f : Font) (ls : List Lookup) : List Nat :=
+  let e := newExplainer f
+  ((ls.map e.gposLookup).intersperse [10]).flatten
+
 def Explainer.subtable (e : Explainer) : Subtable → List Nat
   | .gsub1_1 cov delta =>
     e.seqMappings (cov.map fun g => ([g], [(g + delta) % 65536])) true
@@ -126,6 +184,7 @@ def Explainer.subtable (e : Explainer) : Subtable → List Nat
     entries ((cov.zip alt).map fun p => e.writeGlyph p.1 ++ arrow ++ e.writeGlyphSet p.2)
   | .gsub4_1 cov repl =>
     e.seqMappings ((cov.zip repl).flatMap fun p => p.2.map fun lig => (p.1 :: lig.1, [lig.2])) false
+  | _ => []
 
 def Explainer.lookup (e : Explainer) (l : Lookup) : List Nat :=
   let head := [71, 83, 85, 66] ++ decimal l.typ ++ [58] ++ explainFlags l.flags
@@ -139,10 +198,20 @@ def explainGsub (f : Font) (ls : List Lookup) : List Nat :=
 
 /-- the lookup as `Parse` gives it back: a format 1.2 table whose offsets are all equal is read
 as format 1.1 (the language does not say which format is meant) -/
+def normVR : Option VR → Option VR
+  | some r => if r.x == 0 && r.y == 0 && r.dx == 0 && r.dy == 0 then none else some r
+  | none => none
+
+def normPA (p : PairAdj) : PairAdj := (normVR p.1, normVR p.2)
+
 def normSub : Subtable → Subtable
   | .gsub1_2 cov subst =>
     let ds := (cov.zip subst).map fun p => (p.2 + 65536 - p.1) % 65536
     if ds.all (· == ds.headD 0) then .gsub1_1 cov (ds.headD 0) else .gsub1_2 cov subst
+  | .gpos1_1 cov adj => .gpos1_1 cov (normVR adj)
+  | .gpos1_2 cov adj => .gpos1_2 cov (adj.map normVR)
+  | .gpos2_1 pairs => .gpos2_1 (pairs.map fun p => (p.1, normPA p.2))
+  | .gpos2_2 cov c1 c2 adjust => .gpos2_2 cov c1 c2 (adjust.map fun row => row.map normPA)
   | s => s
 
 def normalize (ls : List Lookup) : List Lookup :=
